@@ -28,6 +28,8 @@ TProg == /\ Ev.e = "h_prog"
          /\ LET bytes == TLCEval(B(Ev.bytes)) IN
             /\ bytes = ProgramBytes(gseed)
             /\ prog' = [q |-> TLCEval(ConfigWords(bytes)), dec |-> TLCEval(DecodeProgram(InstrWords(bytes, v2))), i |-> Ev.i]
+            \* the decoded program the interpreter runs has the specified branch targets
+            /\ Ev.targets = FoldLeft(LAMBDA acc, d : Append(acc, IF d.k = "CBRANCH" THEN d.target ELSE -2), <<>>, prog'.dec)
          /\ Adv /\ UNCHANGED <<S, gseed, lastReg, fpr, v2>>
 \* one loop iteration of the current program
 \* scratchpad content before the iteration, on the 4 KiB pages the real iteration touched (reading any other
